@@ -30,3 +30,40 @@ Proof.
   exists s0. split; [reflexivity|].
   vm_compute in E. injection E as <-. vm_compute. repeat split.
 Qed.
+
+(* ------------------------------------------------------------------ the KF1 classifier is incomplete
+   A variant of KF1 with a DELAYED (not lost) acknowledgement: segments 101 (528 bytes) and 102 (MTU
+   probe, 991 bytes) reach B; B's ACK 102 stays in flight; A's retransmission timer fires in a poll in
+   which the transport answers Pending: the probe is popped and its bytes re-segmented as 102 (528) and
+   103 (528), nothing is sent.  Then the old ACK 102 reaches A: remove_up_to_ack takes it for the NEW
+   102, which was never sent, and truncates 528 + 528 bytes; A sends 103 = W[1056, 1584); B, which has
+   consumed the old 102 = W[528, 1519), accepts it as the next segment and the reader sees
+   W[1056, 1519) twice.  No sequence number is ever emitted with two different lengths, so the
+   classifier c01_kf1_class does not recognise the trace and the guarded predicate c01_pair_guarded is
+   FALSE on it.  (The data-path guard d_clean does flag it: the probe is popped while the receiver
+   holds its index; the direction is live throughout, so pair_trace_prefix applies.) *)
+Definition kf1_delayed_ack_ops : list pop :=
+  [PoApp SA (AWrite (wpattern 1980)); PoPoll SA []; PoDeliver SA 0; PoDeliver SA 0; PoPoll SB [];
+   PoDrop SB 0; PoNow 50000000; PoPoll SB []; PoNow 1500000000; PoPoll SA [TPending];
+   PoDeliver SB 0; PoPoll SA []; PoDeliver SA 0; PoDeliver SA 0; PoDeliver SA 0; PoPoll SB [];
+   PoApp SB (ARead 5000)].
+
+Lemma c01_pair_guarded_refuted :
+  exists s0 : pair (CC := unit),
+    pair_new (fixed_cc 100000) (fun _ _ => tt) kf1_cfg = Some s0 /\
+    pconfig_ok kf1_cfg = true /\
+    live_run (fixed_cc 100000) SA s0 kf1_delayed_ack_ops = true /\
+    let tr := ptrace (fixed_cc 100000) s0 kf1_delayed_ack_ops in
+    let evs := pevents (fixed_cc 100000) s0 kf1_delayed_ack_ops in
+    c01_pair_ok (zip_obs kf1_delayed_ack_ops tr) = false /\ c01_kf1_class evs = false /\
+    c01_d17_class evs = false /\
+    c01_pair_guarded evs (zip_obs kf1_delayed_ack_ops tr) = false /\
+    evs = [KeEmit SA 101 528; KeEmit SA 102 991; KeDeliver SA 101 528; KeDeliver SA 102 991;
+           KeEmit SA 103 528; KeDeliver SA 103 528] /\
+    ha_len (p_rb (prun (fixed_cc 100000) s0 kf1_delayed_ack_ops)) = 2047 /\
+    ha_len (p_wa (prun (fixed_cc 100000) s0 kf1_delayed_ack_ops)) = 1980.
+Proof.
+  destruct (pair_new (fixed_cc 100000) (fun _ _ => tt) kf1_cfg) as [s0|] eqn:E; [|vm_compute in E; discriminate].
+  exists s0. split; [reflexivity|].
+  vm_compute in E. injection E as <-. vm_compute. repeat split.
+Qed.
